@@ -1202,7 +1202,8 @@ def fragment_data_dict(dd, chunk_size):
     # generate chunks with given chunk size
     chunks_dict = collections.defaultdict(list)
     for chrname in ndd.keys():
-        positions = sorted(ndd[chrname])
+        # add_info is None for keys without additional info: None and str do not compare
+        positions = sorted(ndd[chrname], key=lambda pa: (pa[0], pa[1] is not None, pa[1] or ''))
         end = chunk_size
         chunk_index = 0
         chunks_dict[chrname].append([])
